@@ -3,13 +3,13 @@ CONSTANTS
   SLt <- SLtL
   Close <- CloseL
   Bigger <- BiggerL
-  L = 5
-  Dim = 1
+  L = 4
+  Dim = 2
   Periodic = TRUE
-  OpenAxes = {}
-  Radii = {1, 2, 3}
-  MaxN = 4
-  M <- Neg2
+  OpenAxes = {2}
+  Radii = {1, 2}
+  MaxN = 3
+  M = 0
 INVARIANT Subsequence
 INVARIANT InRange
 INVARIANT Separated
